@@ -8,7 +8,7 @@ import time
 import z3
 from vals import *
 import interp as I
-from interp import Machine, Alt, Thread, Frame, Unsupported, BoundExceeded, HANDOFF, _n
+from interp import Machine, Alt, Thread, Frame, Unsupported, BoundExceeded, _n
 
 
 def _regs_used(x, acc):
@@ -97,8 +97,14 @@ class Run:
             self.m.overrides.update(overrides)
         self.live = Liveness()
         self.sched = []       # per step: list of (tid, descr, cond, opt)
-        self.picks = []
-        self.opts = []
+        self.fires = []
+        self.prev = None
+        self.foata = True
+        self.npar = 0
+        self.can_fire_last = False
+        self.last_fires = False
+        self.nguard = 0
+        self.excl = set()
         self.any_enabled_final = None
         self.quiescent_at = None
         self.verbose = verbose
@@ -139,9 +145,20 @@ class Run:
         return out
 
     def options(self, alt, waiters):
-        """[(cond, opt, objs)] : ways the parked alternative can move now (cond excludes alt.guard)"""
+        """[(cond, opt, read_objs)] : ways the parked alternative can move now (cond excludes alt.guard)"""
         m = self.m
-        hf = I.handoff_free(m, alt)
+        alt.rd = set()
+        outs = self._options(alt, waiters)
+        if outs == "quiesce":
+            return outs
+        rd = set(alt.rd)
+        alt.rd = set()
+        return [(c, o, rd | extra) for (c, o, extra) in outs]
+
+    def _options(self, alt, waiters):
+        m = self.m
+        if alt.ack is not None:
+            return [(I.ack_ready(m, alt, alt.ack), None, set())]
         if alt.info is not None:
             name, args = alt.info
             base = name.rsplit(".", 1)[-1] if type(name) is str else ""
@@ -151,40 +168,46 @@ class Run:
             if en is None and type(name) is str and base.startswith("verif"):
                 en = m.enabled.get("$" + base)
             cond = en(m, alt, args) if en else True
-            objs = set()
-            for a in args:
-                for g, p in alts_of(a):
-                    if type(p) is Ptr or type(p) is Chan:
-                        objs.add(p.obj)
-            if type(name) is str and (base in ("verifMerge", "verifYield")):
-                objs = set()
-            return [(AND(hf, cond), None, objs)]
+            return [(cond, None, set())]
         fr, ins = self.cur_ins(alt)
         op = ins["op"]
+
+        def unbuf_wait(chs):
+            out = set()
+            for g, c in chs:
+                if c is not None and m.hget(alt, c.obj)[0] == 0:
+                    out.add(("wait", c.obj))
+            return out
         if op == "Send":
             chs = alts_of(m.ev(alt, fr, ins["chan"]))
             cond = OR(*[AND(g, I.send_ready(m, alt, c, waiters)) for g, c in chs])
-            return [(cond, None, {c.obj for g, c in chs if c is not None} | {HANDOFF})]
+            return [(cond, None, unbuf_wait(chs))]
         if op == "UnOp":
             chs = alts_of(m.ev(alt, fr, ins["x"]))
             cond = OR(*[AND(g, I.recv_ready(m, alt, c)) for g, c in chs])
-            return [(cond, None, {c.obj for g, c in chs if c is not None} | {HANDOFF})]
+            return [(cond, None, set())]
         if op == "Select":
             outs = []
+            full = []
             for i, s in enumerate(ins["states"]):
                 chs = alts_of(m.ev(alt, fr, s["chan"]))
                 if s["dir"] == 1:
                     cond = OR(*[AND(g, I.send_ready(m, alt, c, waiters)) for g, c in chs])
+                    outs.append([cond, i, unbuf_wait(chs)])
+                    full.append(False)
                 else:
                     cond = OR(*[AND(g, I.recv_ready(m, alt, c)) for g, c in chs])
-                outs.append((cond, i, {c.obj for g, c in chs if c is not None} | {HANDOFF}))
+                    outs.append([cond, i, set()])
+                    full.append(OR(*[AND(g, I.slot_full(m, alt, c)) for g, c in chs]))
+            # a value put by a sender on an unbuffered channel is taken before anything else is chosen
+            pri = OR(*full)
+            if pri is not False:
+                for j, o in enumerate(outs):
+                    o[0] = AND(o[0], OR(NOT(pri), full[j]))
             if not ins["blocking"]:
-                none = AND(hf, *[NOT(c) for c, i, o in outs])
-                allobjs = set()
-                for c, i, o in outs:
-                    allobjs |= o
-                outs.append((none, -1, allobjs))
-            return outs
+                none = AND(*[NOT(o[0]) for o in outs])
+                outs.append([none, -1, set()])
+            return [tuple(o) for o in outs]
         raise Unsupported("parked at " + op)
 
     def describe(self, alt, opt):
@@ -211,11 +234,35 @@ class Run:
         return "%s %s @%s" % (fr.fn.name.rsplit("/", 1)[-1], what, pos)
 
     # ------------------------------------------------------------------ one scheduling step
+    def footprint_after(self, tid, res, R, W):
+        for r in res:
+            R[tid].update(r.rd)
+            W[tid].update(r.ov.keys())
+            if r.status == "parked":
+                for g_, c_ in self.recv_chans(r):
+                    W[tid].add(("wait", c_.obj))
+                if r.info is not None and type(r.info[0]) is str and r.info[0].endswith("verifQuiesce"):
+                    W[tid].add("*")
+
+    @staticmethod
+    def conflict(R1, W1, R2, W2):
+        if "*" in W1 or "*" in W2 or "*" in R1 or "*" in R2:
+            return True
+        if not W1.isdisjoint(W2):
+            return True
+        if not W1.isdisjoint(R2):
+            return True
+        if not W2.isdisjoint(R1):
+            return True
+        return False
+
     def step(self, k):
+        """parallel-step semantics: any set of pairwise independent enabled transitions may fire together;
+        in Foata normal form (every transition fired at step k>0 depends on one fired at step k-1)"""
         m = self.m
         m.step = k
+        m.reset_solver()
         parked = [(t, a) for t in m.threads for a in t.alts]
-        # who waits to receive on which channel (for unbuffered rendezvous)
         rwait = []
         for t, a in parked:
             for g, c in self.recv_chans(a):
@@ -226,90 +273,150 @@ class Run:
                 return OR(*[g for (tt, g, c) in rwait if tt != tid and c == ch])
             return waiters
 
-        cands = []   # (thread, alt, cond, opt, objs)
+        cands = []   # (thread, alt, cond, opt, read objs)
         quiesce = []
         for t, a in parked:
             opts = self.options(a, mk_waiters(t.tid))
             if opts == "quiesce":
                 quiesce.append((t, a))
                 continue
-            for cond, opt, objs in opts:
-                c = AND(a.guard, cond)
-                if c is False:
+            for cond, opt, robjs in opts:
+                if AND(a.guard, cond) is False:
                     continue
-                cands.append((t, a, cond, opt, objs))
-        any_other = OR(*[AND(a.guard, cond) for (t, a, cond, opt, objs) in cands])
+                cands.append((t, a, cond, opt, robjs))
+        any_other = OR(*[AND(a.guard, cond) for (t, a, cond, opt, robjs) in cands])
         for t, a in quiesce:
             cands.append((t, a, NOT(any_other), None, {"*"}))
-        # feasibility pruning
         live = []
-        for (t, a, cond, opt, objs) in cands:
+        for c in cands:
+            a, cond = c[1], c[2]
+            # an alternative's guard only gets stronger while it stays parked: an enabling condition that
+            # was infeasible stays infeasible as long as it is the same formula
+            cid = cond.get_id() if is_z3(cond) else cond
+            if a.dead is not None and cid in a.dead:
+                continue
             if m.feasible(a.guard, cond):
-                live.append((t, a, cond, opt, objs))
+                live.append(c)
+            else:
+                if a.dead is None:
+                    a.dead = set()
+                a.dead.add(cid)
+        if self.verbose:
+            for c in cands:
+                print("      cand t%d %s %s" % (c[0].tid, self.describe(c[1], c[3]), "" if c in live else "(infeasible)"), flush=True)
         if not live:
             return False
-        pick = z3.Int("pick!%d" % k)
-        optv = z3.Int("opt!%d" % k)
-        self.picks.append(pick)
-        self.opts.append(optv)
-        any_en = OR(*[AND(a.guard, cond) for (t, a, cond, opt, objs) in live])
-        tids = sorted({t.tid for (t, a, cond, opt, objs) in live})
-        # something moves iff something is enabled
-        m.add_constraint(z3.If(B(any_en), z3.Or(*[pick == tid for tid in tids]), pick == -1))
-        for tid in tids:
-            m.add_constraint(z3.Implies(pick == tid, B(OR(*[AND(a.guard, cond) for (t, a, cond, opt, objs) in live if t.tid == tid]))))
+        any_en = OR(*[AND(a.guard, cond) for (t, a, cond, opt, robjs) in live])
+        tids = sorted({t.tid for (t, a, cond, opt, robjs) in live})
+        R = {tid: set() for tid in tids}
+        W = {tid: set() for tid in tids}
+        for (t, a, cond, opt, robjs) in live:
+            R[t.tid].update(robjs)
+            for g_, c_ in self.recv_chans(a):
+                W[t.tid].add(("wait", c_.obj))
+        deterministic = (len(live) == 1 and not m.feasible(NOT(any_en)))
+        if deterministic:
+            fires = {tids[0]: True}
+        else:
+            fires = {tid: z3.Bool("f!%d!%d" % (k, tid)) for tid in tids}
+        optb = {}
+
+        def optbit(j):
+            j = 0 if j is None else j
+            if j not in optb:
+                optb[j] = z3.Bool("o!%d!%d" % (k, j))
+            return optb[j]
         by_alt = {}
         for c in live:
             by_alt.setdefault(id(c[1]), []).append(c)
         sched = []
         results = []
-        foot = {}
+        en_t = {tid: [] for tid in tids}
         for aid, lst in by_alt.items():
             t, a = lst[0][0], lst[0][1]
-            fire = (pick == t.tid)
-            multi = len(lst) > 1 or lst[0][3] is not None
-            # if this alternative is the real one and its thread is picked, one enabled option is taken
-            if multi:
-                m.add_constraint(z3.Implies(z3.And(fire, B(a.guard)),
-                                            z3.Or(*[z3.And(B(cond), optv == (opt if opt is not None else 0)) for (_, _, cond, opt, _) in lst])))
-            else:
-                m.add_constraint(z3.Implies(z3.And(fire, B(a.guard)), B(lst[0][2])))
-            for (_, _, cond, opt, objs) in lst:
+            fire = fires[t.tid]
+            multi = (len(lst) > 1 or lst[0][3] is not None) and not deterministic
+            if not deterministic:
+                if multi:
+                    m.add_constraint(z3.Implies(z3.And(fire, B(a.guard)),
+                                                z3.Or(*[z3.And(B(cond), optbit(opt)) for (_, _, cond, opt, _) in lst])))
+                else:
+                    m.add_constraint(z3.Implies(z3.And(fire, B(a.guard)), B(lst[0][2])))
+            for (_, _, cond, opt, robjs) in lst:
+                en_t[t.tid].append(AND(a.guard, cond))
                 child = a.copy()
                 g = AND(a.guard, cond, fire)
                 if multi:
-                    g = AND(g, optv == (opt if opt is not None else 0))
+                    g = AND(g, optbit(opt))
+                if not deterministic and g is not True and not (z3.is_const(g) and g.decl().kind() == z3.Z3_OP_UNINTERPRETED):
+                    self.nguard += 1
+                    bname = z3.Bool("c!%d" % self.nguard)
+                    m.add_constraint(bname == g)
+                    g = bname
                 child.guard = g
                 child.resume = True
                 child.opt = opt
                 child.ninstr = 0
                 child.ov = {}
+                child.rd = set()
                 sched.append((t.tid, self.describe(a, opt), g, opt))
-                foot.setdefault(t.tid, set()).update(objs)
                 m.stats["macro_steps"] += 1
                 res = m.run_alt(child)
-                for r in res:
-                    foot[t.tid].update(o for o in r.ov.keys())
-                    if r.status == "parked":
-                        # where the thread waits next matters to senders on unbuffered channels
-                        for g_, c_ in self.recv_chans(r):
-                            foot[t.tid].add(c_.obj)
-                        if r.info is not None and type(r.info[0]) is str and r.info[0].endswith("verifQuiesce"):
-                            foot[t.tid].add("*")
+                self.footprint_after(t.tid, res, R, W)
                 results += res
-            a.guard = AND(a.guard, NOT(fire))
+            if deterministic:
+                a.guard = False
+            else:
+                a.guard = AND(a.guard, NOT(fire))
+                if not m.feasible(a.guard):
+                    a.guard = False
+        ob = list(optb.values())
+        for i in range(len(ob)):
+            for j in range(i + 1, len(ob)):
+                m.add_constraint(z3.Or(z3.Not(ob[i]), z3.Not(ob[j])))
         self.sched.append(sched)
-        # partial-order reduction: adjacent independent steps appear in increasing thread order
-        if self.reduce and self.foot:
-            prev = self.foot[-1]
-            ppick = self.picks[-2]
-            for t1, o1 in prev.items():
-                for t2, o2 in foot.items():
-                    if t2 < t1 and not (o1 & o2) and "*" not in o1 and "*" not in o2 and not self.spawned_by(t1, t2):
-                        m.add_constraint(z3.Not(z3.And(ppick == t1, pick == t2)))
-        self.foot.append(foot)
-        self.finish_step(results)
-        return True
+        self.fires.append(fires)
+        # heap writes, goroutines started in this step (their first local segment belongs to the spawner's step)
+        spawn_rw = self.finish_step(results)
+        for ptid, (r_, w_) in spawn_rw.items():
+            if ptid in R:
+                R[ptid].update(r_)
+                W[ptid].update(w_)
+        # ---- independence: conflicting transitions do not fire in the same step
+        confl = set()
+        if not deterministic:
+            for i in range(len(tids)):
+                for j in range(i + 1, len(tids)):
+                    t1, t2 = tids[i], tids[j]
+                    if self.conflict(R[t1], W[t1], R[t2], W[t2]):
+                        confl.add((t1, t2))
+                        confl.add((t2, t1))
+                        m.add_constraint(z3.Or(z3.Not(fires[t1]), z3.Not(fires[t2])))
+        # ---- Foata normal form + progress
+        prev = self.prev
+        legal = {}
+        for tid in tids:
+            en = OR(*en_t[tid])
+            if prev is None or not self.foata:
+                dep = True
+            else:
+                deps = []
+                for ptid, pf in prev["fires"].items():
+                    if (ptid == tid or tid in prev["spawned"].get(ptid, ()) or (ptid, tid) in prev["confl"]
+                            or self.conflict(prev["R"].get(ptid, set()), prev["W"].get(ptid, set()), R[tid], W[tid])):
+                        deps.append(pf)
+                dep = OR(*deps)
+            legal[tid] = AND(en, dep)
+        if not deterministic:
+            for tid in tids:
+                m.add_constraint(z3.Implies(fires[tid], B(legal[tid])))
+            m.add_constraint(z3.Implies(B(OR(*legal.values())), z3.Or(*[fires[tid] for tid in tids])))
+        self.can_fire_last = OR(*legal.values())
+        self.last_fires = OR(*[f for f in fires.values()])
+        stalled = not deterministic and not m.feasible(self.can_fire_last)
+        self.prev = dict(fires=fires, R=R, W=W, confl=confl, spawned=self.new_threads_last)
+        self.npar = max(self.npar, len(tids))
+        return not stalled
 
     def spawned_by(self, t1, t2):
         # thread t2 may have been created by t1's previous step -> dependent
@@ -321,6 +428,7 @@ class Run:
         self.apply(results)
         # 2. goroutines started in this step run their first (local) segment
         spawned_map = {}
+        spawn_rw = {}
         rounds = 0
         while m.pending_spawns:
             rounds += 1
@@ -329,13 +437,16 @@ class Run:
             for (th, parent_alt, name, args, fv) in ps:
                 spawned_map.setdefault(parent_alt.thread.tid, set()).add(th.tid)
                 alt = Alt(th, parent_alt.guard)
-                for a in th.alts:
-                    for sk, sv in a.nalloc.items():
-                        if alt.nalloc.get(sk, 0) < sv:
-                            alt.nalloc[sk] = sv
                 self.start_thread(alt, name, args, fv)
                 res = m.run_alt(alt)
                 newres += res
+                rw = spawn_rw.setdefault(self.root_spawner(parent_alt.thread.tid, spawned_map), (set(), set()))
+                for r in res:
+                    rw[0].update(r.rd)
+                    rw[1].update(r.ov.keys())
+                    if r.status == "parked":
+                        for g_, c_ in self.recv_chans(r):
+                            rw[1].add(("wait", c_.obj))
             self.apply(newres)
             results = results + newres
         self.new_threads_last = spawned_map
@@ -350,7 +461,34 @@ class Run:
             t.alts = [a for a in t.alts if a.guard is not False]
             if len(t.alts) > 1:
                 t.alts = self.merge_alts(t.alts)
+            # name the guards (one Boolean state variable per alternative and step) and state the
+            # redundant but helpful lemma that a thread is at one location at a time
+            named = []
+            for i, a in enumerate(t.alts):
+                g = a.guard
+                if g is True:
+                    continue
+                if not (z3.is_const(g) and g.decl().kind() == z3.Z3_OP_UNINTERPRETED):
+                    self.nguard += 1
+                    b = z3.Bool("g!%d" % self.nguard)
+                    m.add_constraint(b == g)
+                    a.guard = b
+                named.append(a.guard)
+            for i in range(len(named)):
+                for j in range(i + 1, len(named)):
+                    key = (named[i].get_id(), named[j].get_id())
+                    if key not in self.excl:
+                        self.excl.add(key)
+                        m.add_constraint(z3.Or(z3.Not(named[i]), z3.Not(named[j])))
         m.stats["alts"] = max(m.stats["alts"], sum(len(t.alts) for t in m.threads))
+        return spawn_rw
+
+    def root_spawner(self, tid, spawned_map):
+        # a goroutine started by a goroutine started in this very step is attributed to the thread that fired
+        for p, kids in spawned_map.items():
+            if tid in kids:
+                return self.root_spawner(p, spawned_map)
+        return tid
 
     def start_thread(self, alt, name, args, fv):
         """first frame of a goroutine; intrinsic targets get a tiny wrapper frame"""
@@ -388,7 +526,8 @@ class Run:
         order = []
         for a in alts:
             self.prune(a)
-            key = (a.loc(), a.info[0] if a.info else None, len(a.info[1]) if a.info else 0, a.opt)
+            key = (a.loc(), a.info[0] if a.info else None, len(a.info[1]) if a.info else 0, a.opt,
+                   frozenset(a.nalloc.items()))
             if key not in groups:
                 groups[key] = []
                 order.append(key)
@@ -441,16 +580,18 @@ class Run:
         k = 0
         while k < self.K:
             if self.verbose:
-                print("  step %d: threads=%d alts=%d constraints=%d t=%.1fs" % (
-                    k, len(m.threads), sum(len(t.alts) for t in m.threads), len(m.constraints), time.time() - self.t0), flush=True)
+                print("  step %d: threads=%d alts=%d constraints=%d t=%.1fs checks=%d solver=%.1fs instrs=%d hits=%d" % (
+                    k, len(m.threads), sum(len(t.alts) for t in m.threads), len(m.constraints), time.time() - self.t0,
+                    m.stats["solver_checks"], m.stats["solver_s"], m.stats["instrs"], m.stats.get("model_hits", 0)), flush=True)
             if not self.step(k):
                 self.quiescent_at = k
                 break
             k += 1
         self.steps_done = k
         # anything still enabled after the last step?  (completeness threshold)
+        # completeness threshold: can anything still fire at the last unrolled step?
         if self.quiescent_at is None:
-            self.any_enabled_final = self.enabled_now()
+            self.any_enabled_final = self.last_fires
         else:
             self.any_enabled_final = False
         return self
@@ -475,7 +616,8 @@ class Run:
 
     # ------------------------------------------------------------------ queries
     def solve(self, *extra, timeout_ms=120000):
-        s = self.m.solver
+        s = z3.Solver()
+        s.add(*self.m.constraints)
         s.set("timeout", timeout_ms)
         t0 = time.time()
         r = s.check(*[B(e) for e in extra])
@@ -487,16 +629,16 @@ class Run:
     def schedule_of(self, model):
         out = []
         for k, sched in enumerate(self.sched):
-            pv = model.eval(self.picks[k], model_completion=True)
-            hit = None
+            hits = []
+            seen = set()
             for tid, descr, g, opt in sched:
-                if z3.is_true(model.eval(B(g), model_completion=True)):
-                    hit = (tid, descr)
-                    break
-            if hit is None:
+                if tid not in seen and z3.is_true(model.eval(B(g), model_completion=True)):
+                    seen.add(tid)
+                    hits.append((tid, descr))
+            if not hits:
                 out.append({"step": k, "idle": True})
-            else:
-                out.append({"step": k, "thread": self.m.threads[hit[0]].name, "tid": hit[0], "op": hit[1]})
+            for tid, descr in hits:
+                out.append({"step": k, "thread": self.m.threads[tid].name, "tid": tid, "op": descr})
         return out
 
     def log_of(self, model):
